@@ -98,6 +98,8 @@ def confirm(ob):
     """estimate() vs the headline accessor on short streams of the real crate (bit for bit)."""
     import re
     import replay
+    if ob.name.startswith("C20.concatenate.collect"):
+        return confirm_concat_collect()
     m = re.match(r"C20\.(\w+)\.estimate\.same_term", ob.name)
     if not m:
         return None
@@ -117,3 +119,27 @@ def confirm(ob):
         if replay.bits(a) != replay.bits(b) and not (a != a and b != b):
             return {"program": pg, "expected": {"estimate": "bits of %s() = %r" % (head, b)}, "actual": {"estimate": repr(a)}, "confirmed_on_real_code": True}
     return None
+
+
+def confirm_concat_collect():
+    """collect() into a concatenate! struct (by value / by reference, exact-size and size-hint-less sources) against the add loop."""
+    import replay
+    seqs = [[], [2.5], [3.0, -1.0], [1.0, 7.0, -4.0, 2.0], [5.0, 5.0, 9.0, -2.0, 0.5]]
+    progs = []
+    for xs in seqs:
+        progs.append({"type": "ConcatMinMax", "ctor": ["new"], "ops": [["add", x] for x in xs], "observe": ["min", "max"]})
+        for how in ("collect", "collect_ref", "collect_opaque", "collect_ref_opaque"):
+            progs.append({"type": "ConcatMinMax", "ctor": [how, xs], "ops": [], "observe": ["min", "max"]})
+    res = replay.run_programs(progs)
+    for i in range(0, len(progs), 5):
+        base = res[i]
+        if base.get("error"):
+            return {"replay_error": base["error"]}
+        for j in range(1, 5):
+            r = res[i + j]
+            for k in ("min", "max"):
+                u, v = base["obs"].get(k), r["obs"].get(k)
+                if r["panic"] or u is None or v is None or (replay.bits(u) != replay.bits(v) and not (u != u and v != v)):
+                    return {"program": progs[i + j], "expected": {k: repr(u) + " (add loop)"}, "actual": {k: repr(v), "panic": r["panic"]},
+                            "confirmed_on_real_code": True}
+    return {"confirmed_on_real_code": False, "note": "%d collect variants agree with the add loop on the real crate" % (len(progs) - len(seqs))}
